@@ -160,7 +160,7 @@ def walk(job):
             ris = sorted({a[0] for a in app})
             ri = rng.choice(ris)
             k = rng.choice([a[1] for a in app if a[0] == ri])
-            style = (rng.choice(["inplace", "inplace", "deepcopy", "pickle"]) if rng.random() < 0.5 else "clone") if (len(script) > 3 and script[3]) else "clone"
+            style = ("inplace" if rng.random() < 0.4 else "clone") if (len(script) > 3 and script[3]) else "clone"
             s, new_root, prev, objs = do_step(cur, persistent, ri, k, objs, prev, style)
             tr["steps"].append(s); tr["script"].append([ri, k] + ([style] if style != "clone" else []))
             if new_root is None or s["outcome"] != "ok" or len(rewrite.inorder(new_root)) > 60:
